@@ -5,7 +5,7 @@
 // One schedule = one worker process (a hung one is simply abandoned / killed by the parent).
 //
 // parent:  c20 -in <schedules> -out <results> -j N     (S lines of ocaml/C20/driver.ml + built-ins)
-// worker:  c20 -worker -spec "<S line>"  |  c20 -worker -scenario f1det-remove|f1det-import|nilrace|race-stop/<n>|qp/<n>
+// worker:  c20 -worker -spec "<S line>"  |  c20 -worker -scenario f1det-remove|f1det-import|nilrace|race-stop/<n>|qp/<n>|rs/<n>
 //
 // result line:  R id=.. blocks=.. reqs=.. stop=.. steered=k/n diverged=0|1 outcome=stopped|hang|idle|busy|panic obs=a,hb,..
 // observable alphabet (= labels of coq/Sched/Handshake.v):
@@ -13,6 +13,7 @@
 //	a  block queued        ti/tr  import/removal accepted and queued      tp  API call panicked
 //	hb/hc  handler begins/ends its block transaction     kb/kc  worker begins/ends a task transaction
 //	s  Stop called         z  database closed
+//	kx worker's import batch refused: transaction rolled back (family rs only, retrystop.go)
 package main
 
 import (
@@ -72,7 +73,12 @@ func project(e sched.Event) string {
 			switch e.Point {
 			case "begin":
 				return "kb"
-			case "commit", "abort":
+			case "abort":
+				if refusalLabel && e.Fn == "asyncImport" {
+					return "kx" // the batch was refused (retrystop.go)
+				}
+				return "kc"
+			case "commit":
 				return "kc"
 			}
 		}
@@ -570,6 +576,9 @@ func runWorker(spec, scen string) {
 	case strings.HasPrefix(scen, "qp/"):
 		n, _ := strconv.Atoi(scen[len("qp/"):])
 		qp(seed, n)
+	case strings.HasPrefix(scen, "rs/"):
+		n, _ := strconv.Atoi(strings.TrimSuffix(scen[len("rs/"):], "/restart"))
+		rs(seed, n)
 	default:
 		fmt.Fprintln(os.Stderr, "unknown scenario")
 		os.Exit(2)
@@ -585,6 +594,7 @@ func main() {
 	jobs := flag.Int("j", 8, "parallel worker processes")
 	nrace := flag.Int("race", 0, "number of unsteered request/Stop races to add")
 	nqp := flag.Int("qp", 0, "number of queue-pressure schedules to add (pressure.go)")
+	nrs := flag.Int("rs", 0, "number of retry-stop schedules to add (retrystop.go)")
 	scens := flag.String("scen", "", "further built-in scenarios to run (comma separated, e.g. qp/7: replay)")
 	flag.Parse()
 	if *worker || *scen != "" || *spec != "" {
@@ -623,6 +633,10 @@ func main() {
 	}
 	for i := 0; i < *nqp; i++ {
 		s := fmt.Sprintf("qp/%d", i)
+		jobsList = append(jobsList, job{[]string{"-worker", "-scenario", s}, s})
+	}
+	for i := 0; i < *nrs; i++ {
+		s := fmt.Sprintf("rs/%d", i)
 		jobsList = append(jobsList, job{[]string{"-worker", "-scenario", s}, s})
 	}
 	for _, s := range strings.Split(*scens, ",") {
